@@ -4,7 +4,7 @@
    caches, regenerated from the current source; [pinned] (BV.State.Caches) = the same tables of the pinned tree by
    hand, used for the witnesses.  [run T h] replays a history of API calls on the state machine. *)
 From Coq Require Import ZArith List Bool.
-From BV Require Import State.Caches State.CacheProofs State.C18Lemmas.
+From BV Require Import State.Caches State.CacheProofs State.C18Lemmas State.CacheTransparent.
 From BVgen Require Import CacheKeys.
 Import ListNotations.
 
@@ -83,3 +83,28 @@ Theorem C18_memo_keys_refuted :
     = Some (Some [(APromote, 0%Z); (QReg, 4%Z)]).
 Proof. exact mass_memo_refuted. Qed.
 Print Assumptions C18_memo_keys_refuted.
+
+(* for ANY tables whose FMM cache keys contain every input read while building the cached interface: for all histories
+   the descriptor of an assembled FMM operator is computed from the two parameter objects (own, global) as they were at
+   its construction / first assembly -- cache hits are indistinguishable from rebuilding *)
+Theorem C18_cache_key_sufficient : forall T : tables,
+  key_sufficient T CFmm = true -> key_sufficient T CFmmPotential = true ->
+  forall h i o d, nth_error (s_ops (run T h)) i = Some o -> o_kind o = KFmm -> o_cached o = Some d ->
+  exists po pg, o_snapshot o = Some po /\ o_gsnapshot o = Some pg /\
+    d = at_time T KFmm Create (o_cparams o) (o_gcparams o) ++ at_time T KFmm Assemble po pg ++ iface_at T CFmm po pg.
+Proof. exact fmm_cache_transparent. Qed.
+Print Assumptions C18_cache_key_sufficient.
+
+Theorem C18_potential_cache_key_sufficient : forall T : tables,
+  key_sufficient T CFmm = true -> key_sufficient T CFmmPotential = true ->
+  forall h i o, nth_error (s_ops (run T h)) i = Some o -> o_kind o = KFmmPotential ->
+  o_created o = at_time T KFmmPotential Create (o_cparams o) (o_gcparams o) ++
+                iface_at T CFmmPotential (o_cparams o) (o_gcparams o).
+Proof. exact fmm_potential_cache_transparent. Qed.
+Print Assumptions C18_potential_cache_key_sufficient.
+
+(* the hypotheses are satisfiable (tables of the repaired source, docs/fixes/c18_fmm_parameters.diff) *)
+Theorem C18_repaired_keys_sufficient :
+  key_sufficient repaired CFmm = true /\ key_sufficient repaired CFmmPotential = true.
+Proof. exact repaired_keys_sufficient. Qed.
+Print Assumptions C18_repaired_keys_sufficient.
